@@ -1,6 +1,7 @@
 package main
 
 import (
+	"encoding/hex"
 	"math"
 	"strconv"
 	"strings"
@@ -98,6 +99,8 @@ func (n *CNode) leafPrim() string {
 	}
 	return ""
 }
+
+func hexEncode(s string) string { return hex.EncodeToString([]byte(s)) }
 
 func hexLen(p string) int { return (len(p) - 2) / 2 }
 
@@ -223,6 +226,34 @@ func init() {
 	// K-escape-wild / K-escape-backslash (C08 escaping clause): the text contains * or ? / a backslash
 	cp["escape-wild"] = func(c *Case, f *Failure) bool { return c.Rel == "escaped" && strings.ContainsAny(c.Want, "*?") }
 	cp["escape-backslash"] = func(c *Case, f *Failure) bool { return c.Rel == "escaped" && strings.Contains(c.Want, `\`) }
+	// C11 classes, judged on the tree parsed WITH the default field
+	isBare := func(n *CNode) bool { return n != nil && n.Kind == "expr" && (n.Op == 11 || n.Op == 12 || n.Op == 13) && n.L != nil && n.L.Kind == "prim" }
+	cp["df-unary"] = func(c *Case, f *Failure) bool {
+		return treeOf(f).any(func(x *CNode) bool { return x.Kind == "expr" && (x.Op == 7 || x.Op == 8 || x.Op == 9 || x.Op == 10) && isBare(x.L) })
+	}
+	cp["df-pattern"] = func(c *Case, f *Failure) bool {
+		t := treeOf(f)
+		isPat := func(n *CNode) bool { return isBare(n) && (n.Op == 12 || n.Op == 13) }
+		return isPat(t) || t.any(func(x *CNode) bool {
+			return x.Kind == "expr" && (x.Op == 1 || x.Op == 2 || x.Op == 5) && (isPat(x.L) || isPat(x.R))
+		})
+	}
+	cp["df-list"] = func(c *Case, f *Failure) bool {
+		dfHex := "c:" + hexEncode(c.DF)
+		var orOfWrapped func(n *CNode) bool
+		orOfWrapped = func(n *CNode) bool {
+			if n == nil || n.Kind != "expr" {
+				return false
+			}
+			if n.Op == 2 {
+				return orOfWrapped(n.L) && orOfWrapped(n.R)
+			}
+			return n.Op == 3 && n.L.leafPrim() == dfHex
+		}
+		return treeOf(f).any(func(x *CNode) bool {
+			return x.Kind == "expr" && x.Op == 3 && x.L.leafPrim() != dfHex && x.R != nil && x.R.Kind == "expr" && x.R.Op == 2 && orOfWrapped(x.R)
+		})
+	}
 	// K-dangling-escape (C09): one spelling ends in a backslash
 	cp["dangling-escape"] = func(c *Case, f *Failure) bool {
 		return strings.HasSuffix(strings.TrimRight(c.S, " \t\r\n"), `\`) || strings.HasSuffix(strings.TrimRight(c.S2, " \t\r\n"), `\`)
